@@ -40,7 +40,7 @@ PROPS = {
              ["Gx.Pins.scheme_aliases", "Gx.Pins.default_delta", "Gx.Pins.rl_always_guarded"],
              ns.make_run(ns.c06_case, 45, 1500, ns.scheme_cfg, extra=ns.c06_family), ns.c06_case),
     "C07": P("GotranxProofs.Properties.C07 GotranxProofs.GenValidRL GotranxProofs.SchemeEndToEnd",
-             ["Gx.SchemeEndToEnd.genHybrid_correct", "Gx.GenValidRL.genHybrid_valid", "Gx.GenValidRL.rl_generators_valid", "Gx.C07.hybrid_empty_eq_euler", "Gx.C07.hybrid_all_eq_grl", "Gx.C07.hybrid_foreign_names", "Gx.C07.hybrid_slotwise",
+             ["Gx.SchemeEndToEnd.genHybrid_correct", "Gx.SchemeEndToEnd.genHybrid_all_value", "Gx.SchemeEndToEnd.genHybrid_none_value", "Gx.GenValidRL.genHybrid_valid", "Gx.GenValidRL.rl_generators_valid", "Gx.C07.hybrid_empty_eq_euler", "Gx.C07.hybrid_all_eq_grl", "Gx.C07.hybrid_foreign_names", "Gx.C07.hybrid_slotwise",
               "Gx.C07.bodySlots_congr", "Gx.C07.rlStore_nonstiff", "Gx.C07.rlStore_stiff", "Gx.C07.hybrid_aliases", "Gx.checkScheme_sound"] + COMMON,
              ["Gx.Pins.scheme_aliases"],
              ns.make_run(ns.c07_case, 30, 1200, ns.scheme_cfg), ns.c07_case),
@@ -111,8 +111,8 @@ PROPS = {
               "Gx.C20.jacobian_entry_correct", "Gx.C20.jacobian_shape", "Gx.diff_correct"],
              ["Gx.Pins.max_tries_shape"],
              ss.c20_run, ss.c20_case),
-    "C12": P("GotranxProofs.Properties.C12 GotranxProofs.GenValid",
-             ["Gx.GenValid.genRhs_removal_invariant", "Gx.GenValid.genRhs_valid", "Gx.GenValid.genRhs_exprOK", "Gx.C12.unused_equiv_rhs", "Gx.C12.removed_never_read", "Gx.C12.mentioned_complete", "Gx.checkRhs_sound_named", "Gx.checkRhs_progress"] + COMMON,
+    "C12": P("GotranxProofs.Properties.C12 GotranxProofs.GenValid GotranxProofs.SchemeEndToEnd",
+             ["Gx.SchemeEndToEnd.genEuler_removal_invariant", "Gx.SchemeEndToEnd.genGRL_removal_invariant", "Gx.SchemeEndToEnd.genHybrid_removal_invariant", "Gx.GenValid.genRhs_removal_invariant", "Gx.GenValid.genRhs_valid", "Gx.GenValid.genRhs_exprOK", "Gx.C12.unused_equiv_rhs", "Gx.C12.removed_never_read", "Gx.C12.mentioned_complete", "Gx.checkRhs_sound_named", "Gx.checkRhs_progress"] + COMMON,
              ["Gx.Pins.removal_flags"],
              ns.c12_run, ns.c12_case),
 }
